@@ -3,7 +3,7 @@
     thread ("base") and with k threads ("multi") on the same input, and the oracle demands:
     no hang, no panic, identical per-tree results (records sorted by tree id by the worker),
     and an erroneous / foreign-taxon tree at any stream position reaches the caller as an error.
-    case: ((op compare|weighted|fbp|tbe) (ref T) (trees (T ...)) (threads k) (badkind none|err|taxa) (badpos i) (tips b))
+    case: ((op compare|weighted|fbp|tbe) (ref T) (trees (T ...)) (threads k) (badkind none|err|taxa) (badposs (i ...)) (tips b))
     obs : ((base R) (multi R)),  R = ((hang b) (err msg) (results (...))) | ((hang F) (panic msg))          *)
 From Coq Require Import String ZArith QArith Bool Arith List.
 From GT Require Import Base.Sexp Base.UTree Base.Codec Judge.Common.
